@@ -614,3 +614,118 @@ def _exact_len(E, ci, it):
     if isinstance(v, ListIter):
         return USZ(v.j - v.i)
     raise ModelGap('ExactSizeIterator::len')
+
+
+@model('Iterator::min_by_key', 'Iterator::max_by_key')
+def _minmax_by_key(E, ci, it, f):
+    from .models_core import val_lt
+    best = None
+    bk = None
+    for x in drain_iter(E, _it(E, it)):
+        k = E.call_value(f, [Ref([x], 0)])
+        if best is None:
+            best, bk = x, k
+        elif ci.method == 'max_by_key':
+            if not E.branch(val_lt(E, k, bk)):
+                best, bk = x, k
+        elif E.branch(val_lt(E, k, bk)):
+            best, bk = x, k
+    return some(best) if best is not None else none()
+
+
+@model('Iterator::min_by', 'Iterator::max_by')
+def _minmax_by(E, ci, it, f):
+    best = None
+    for x in drain_iter(E, _it(E, it)):
+        if best is None:
+            best = x
+            continue
+        o = E.call_value(f, [Ref([best], 0), Ref([x], 0)])
+        if ci.method == 'max_by':
+            if o.variant <= 0:
+                best = x
+        elif o.variant > 0:
+            best = x
+    return some(best) if best is not None else none()
+
+
+@model('Iterator::product')
+def _product(E, ci, it):
+    acc = None
+    for x in drain_iter(E, _it(E, it)):
+        x = deref(x)
+        acc = x if acc is None else E.binop('Mul', acc, x)
+    if acc is None:
+        return I(type_last(ci.targs[0]) if ci.targs else 'usize', 1)
+    return acc
+
+
+@model('Iterator::unzip')
+def _unzip(E, ci, it):
+    a, b = [], []
+    for x in drain_iter(E, _it(E, it)):
+        a.append(x.fields[0])
+        b.append(x.fields[1])
+    return Agg('tuple', 0, [VecV(a, 'Vec'), VecV(b, 'Vec')])
+
+
+@model('Iterator::partition')
+def _partition(E, ci, it, f):
+    a, b = [], []
+    for x in drain_iter(E, _it(E, it)):
+        cell = [x]
+        (a if E.branch(E.call_value(f, [Ref(cell, 0)])) else b).append(cell[0])
+    return Agg('tuple', 0, [VecV(a, 'Vec'), VecV(b, 'Vec')])
+
+
+@model('Iterator::try_fold')
+def _try_fold(E, ci, it, init, f):
+    acc = init
+    for x in drain_iter(E, _it(E, it)):
+        r = E.call_value(f, [acc, x])
+        good = 1 if r.ty == 'Option' else 0
+        if r.variant != good:
+            return r
+        acc = r.fields[0]
+    tl = type_last(ci.targs[1]) if len(ci.targs) > 1 else 'Result'
+    return some(acc) if tl == 'Option' else ok(acc)
+
+
+@model('Iterator::try_for_each')
+def _try_for_each(E, ci, it, f):
+    for x in drain_iter(E, _it(E, it)):
+        r = E.call_value(f, [x])
+        good = 1 if r.ty == 'Option' else 0
+        if r.variant != good:
+            return r
+    tl = type_last(ci.targs[1]) if len(ci.targs) > 1 else 'Result'
+    return some(UNIT) if tl == 'Option' else ok(UNIT)
+
+
+@model('Iterator::eq')
+def _iter_eq(E, ci, a, b):
+    from .models_core import val_eq
+    xa = list(drain_iter(E, _it(E, a)))
+    xb = list(drain_iter(E, iter_of(E, b)))
+    if len(xa) != len(xb):
+        return False
+    return b_and(*[val_eq(E, x, y) for x, y in zip(xa, xb)])
+
+
+@model('iter::once')
+def _iter_once(E, ci, x):
+    return ListIter([x])
+
+
+@model('iter::empty')
+def _iter_empty(E, ci):
+    return ListIter([])
+
+
+@model('iter::repeat')
+def _iter_repeat(E, ci, x):
+    class Rep(Iter):
+        def next(self_, E_):
+            from .models_core import clone_val
+            return some(clone_val(E_, x))
+    return Rep()
